@@ -23,7 +23,7 @@ def run(chk, tier):
     c16.model_check(chk, tier)
     env = c16.new_env()
     rnd = random.Random(core.SEED + 5)
-    n_cubes = 14 if tier == "quick" else 200
+    n_cubes = 36 if tier == "quick" else 300
     traces, meta = [], {}
     tid = 0
     for q in range(n_cubes):
